@@ -80,6 +80,7 @@ def menu():
         # a name the signature does not have (a key of **kw) after a typed item: neither annotation nor default may come from anywhere
         add(kind, "gn", items=[_item("x", "int"), _item("zz", None), _item("y", None)])
     add("attributes", "gns", items=[_item("a", "int")])
+    add("attributes", "gns", items=[_item("a", "list[int]"), _item("b", "bytes", D2)])  # written types that differ from the class body's annotations
     add("attributes", "gn", items=[_item("a", None, D2), _item("b", "str", D3)])
     add("attributes", "gn", items=[_item("b", "str"), _item("zz", None), _item("a", None)])  # zz: not an attribute of the parent
     for kind in ("returns", "yields", "receives"):
@@ -129,7 +130,9 @@ STYLE_LETTER = {"google": "g", "numpy": "n", "sphinx": "s"}
 VARIANTS = {
     "google": [{}, {"returns_named_value": False, "receives_named_value": False}, {"returns_multiple_items": False, "receives_multiple_items": False}, {"trim_doctest_flags": False}],
     "numpy": [{}, {"trim_doctest_flags": False}],
-    "sphinx": [{}],
+    # "_types": where a type is written as a field of its own (render-only, not a parser option): `:type x:` / `:vartype v:` after or before the
+    # `:param x:` / `:var v:` it belongs to, under parents whose signature / class body carries (other) annotations
+    "sphinx": [{}, {"_types": "after"}, {"_types": "before"}],
 }
 
 
@@ -326,15 +329,25 @@ def render_sphinx(sections, opts):
         for it in s.get("items", []):
             flat = [l for p in it["desc"] for l in p]
             first, rest = flat[0], ["    " + l for l in flat[1:]]
+            types = opts.get("_types")
             if k == "parameters":
-                # the type is written inline: a separate ":type x:" next to an annotated signature is reported as duplicate
-                # information by the parser (tests/test_docstrings/test_sphinx.py), so it is not "well-formed" here
-                out.append(f":param {it['annotation']} {it['name']}: {first}" if it["annotation"] else f":param {it['name']}: {first}")
-                out.extend(rest)
+                # default: the type is written inline.  (Inline AND as a field is "duplicate information", tests/test_docstrings/test_sphinx.py: never generated.)
+                if types and it["annotation"]:
+                    if types == "before":
+                        out.append(f":type {it['name']}: {it['annotation']}")
+                    out.append(f":param {it['name']}: {first}")
+                    out.extend(rest)
+                    if types == "after":
+                        out.append(f":type {it['name']}: {it['annotation']}")
+                else:
+                    out.append(f":param {it['annotation']} {it['name']}: {first}" if it["annotation"] else f":param {it['name']}: {first}")
+                    out.extend(rest)
             elif k == "attributes":
+                if it["annotation"] and types == "before":
+                    out.append(f":vartype {it['name']}: {it['annotation']}")
                 out.append(f":var {it['name']}: {first}")
                 out.extend(rest)
-                if it["annotation"]:
+                if it["annotation"] and types != "before":
                     out.append(f":vartype {it['name']}: {it['annotation']}")
             elif k == "returns":
                 out.append(f":returns: {first}")
@@ -495,7 +508,7 @@ def run_case(env, acc, case):
     ds = g.Docstring(text, lineno=1, parent=parent)
     case_d = {"style": style, "sections": list(combo), "summary": summary, "variant": vi, "text": text}
     try:
-        got = _norm(ds.parse(style, **opts), env["enc"])
+        got = _norm(ds.parse(style, **{k: v for k, v in opts.items() if not k.startswith("_")}), env["enc"])
     except Exception as e:  # noqa: BLE001
         acc.violation(f"raise/{style}/{type(e).__name__}", f"{style} parser raised {e!r} on a well-formed docstring", case_d, None, size=len(text))
         acc.case(case_d, outcome=style + ":raise")
@@ -518,7 +531,7 @@ def run_case(env, acc, case):
         sub = Acc()
         run_case(env, sub, (style, combo, summary, 0))
         if not sub.violations:
-            optn = ",".join(f"{k}={v}" for k, v in opts.items() if k.startswith(("returns", "trim")))
+            optn = ",".join(f"{k}={v}" for k, v in opts.items() if k.startswith(("returns", "trim", "_types")))
     if gk != ek:
         # which section boundary is responsible: first index where kinds diverge
         i = next((j for j, (a, b) in enumerate(zip(gk, ek)) if a != b), min(len(gk), len(ek)))
